@@ -54,6 +54,17 @@ CHECKS = {
          "All strings of <= 4 (thorough 5) atoms over a 35-atom mixed alphabet (keywords, ASCII / non-ASCII letters, digits and radix prefixes, exponent letters, dot, operator characters, quotes, backslash, white space incl. newline) under six operator sets (built-in, prefix-overlapping symbolic, containing . and ?, identifier-like with common prefixes, non-ASCII identifier-like, empty): tokens must be in source order, non-overlapping, separated only by white space, with runes[Idx:IdxEnd] == Lexeme and Line / Col recomputed from the text, and the token sequence must equal the reference scanner's (longest registered symbolic operator, whole-word identifier-like operators and true / false, . and ? never split out of a longer operator, each literal form one token); error iff the reference errors.",
          "Trusted: mc/ref/lex.go (no regexp). The literal grammars of lexer/factory.go are taken as the documented lexical grammar.",
          "DESIGN.md §4 C09"),
+
+ "C18": ("enum", "model_checking",
+         "bounded-exhaustive enumeration of all value pairs per type × all 8 map-iteration seeds, executed on the real equality / rendering / key / set functions",
+         "For 12 types (numbers across the 2^53 and int64 boundaries, strings needing escapes, booleans, instants incl. another zone and sub-second parts, lists, maps built in every insertion order, 3-field objects in all 6 field orders, nested objects, lists of objects, optionals) every ordered pair of values is probed, as raw values and as converted host data, under each of the 8 map-iteration start offsets the runtime can choose: the language's == (on singleton lists), equal String(), equal Key() / isset / get on a map keyed by one of them, and |union| / |intersect| / |diff| of singleton lists must all coincide with structural equality (numbers in the sets are identical or further apart than the tolerance); equality is reflexive on independently built copies and symmetric; the rendering is the same for every seed.",
+         "Trusted: mc/ref LangEqual (structural equality by field name). The runtime overlay makes the iteration start offset an input (seeds 1..8 = every order for maps of <= 8 entries).",
+         "DESIGN.md §4 C18"),
+ "C20": ("enum", "model_checking",
+         "bounded-exhaustive enumeration of criteria trees and adversarial operands; the emitted WHERE text is re-read by an independent SQL boolean-expression reader",
+         "All criteria trees of depth <= 2 over binary AND / OR, unary NOT and 11 leaf conditions (thorough: also depth 3 over 3 leaves), and every adversarial string / number operand in every condition that takes it inside four tree contexts: the text produced by ext.CompileToSql is tokenised and parsed with standard SQL precedence; the tree read back must equal the input modulo flattening of AND / OR, bound names must appear as their run-time values and unbound names as back-quoted columns, each string operand must be exactly one quoted literal that decodes to the operand, numbers must be plain numeric literals that read back as the same double, booleans 1 / 0, instants from_unixtime(n).",
+         "Trusted: mc/ref/sql.go (tokenizer + precedence reader). Assumes MySQL-style backslash escapes inside double-quoted literals.",
+         "DESIGN.md §4 C20"),
  "C17": ("enum", "model_checking",
          "bounded-exhaustive enumeration of type pairs executed on the real Unify/Equals, judged against an independent matcher and algebraic laws",
          "Every ordered pair of types up to depth 1 (width 2) over the full constructor alphabet, every same-constructor pair of a reduced depth-2 set, and every pair of argument 2-tuples (tree-shaped and pointer-shared) is run through the real types.Equals / types.Unify in both orders; Equals must coincide with structural identity by field name, and a successful Unify must yield an acyclic substitution that makes both sides equal (relaxed only at the documented ⊥/⊤ positions) and must succeed exactly when the reference one-way matcher finds an instantiation for pattern-vs-ground pairs. Exhaustive within that bound; nothing is sampled.",
